@@ -320,12 +320,18 @@ def subtotal_methods(ctx: Ctx):
         ci = ctx.repo.cls(MS, cname)
         er = expand(ctx.repo, ci, "_subtotal_row", bind=b2("subtotal"), stop=lambda m: True)
         ec = expand(ctx.repo, ci, "_subtotal_column", bind=b2("subtotal"), stop=lambda m: True)
+        from ..symex import fold_consts
+
+        er, ec = fold_consts(er), fold_consts(ec)
         v, tt, why = compare_twins(er, ec)
         ctx.ob("subtotal-mirror", f"{MS}::{cname}._subtotal_row <-> _subtotal_column", tt[:250], u(ec)[:250], v, why)
         ctx.count("subtotal method pairs")
     wd = ctx.repo.cls(MS, "WaveDiffSubtotal")
     er = expand(ctx.repo, wd, "_subtotal_row", bind=b2("subtotal", "default"), stop=lambda m: m.kind in ("lazyproperty", "property"))
     ec = expand(ctx.repo, wd, "_subtotal_column", bind=b2("subtotal", "default"), stop=lambda m: m.kind in ("lazyproperty", "property"))
+    from ..symex import fold_consts
+
+    er, ec = fold_consts(er), fold_consts(ec)  # a shared helper taking the axis number, inlined into both twins
     v, tt, why = compare_twins(er, ec)
     ctx.ob("subtotal-mirror", f"{MS}::WaveDiffSubtotal._subtotal_row <-> _subtotal_column", tt[:250], u(ec)[:250], v, why)
     ctx.count("subtotal method pairs")
@@ -378,8 +384,17 @@ def slice_properties(ctx: Ctx):
         if tw not in sl.members or name in excluded:
             continue
         # `self._rows_dimension` is by definition `self._dimensions[0]`: expand only that alias
-        er = expand(ctx.repo, sl, name, stop=lambda mm: mm.name != "_rows_dimension")
-        ec = expand(ctx.repo, sl, tw, stop=lambda mm: mm.name != "_rows_dimension")
+        # ... and private helper METHODS the twins share (`_assemble_share_sum(name)`, `_scale_mean_of_margin(margin, values)`),
+        # with their literal arguments folded in
+        from ..symex import fold, fold_consts
+
+        def _stop(mm):
+            if mm.name == "_rows_dimension":
+                return False
+            return mm.kind in ("lazyproperty", "property") or mm.name in ("_assemble_matrix", "_assemble_marginal", "_assemble_vector") or not mm.name.startswith("_")
+
+        er = fold_consts(fold(expand(ctx.repo, sl, name, stop=_stop)))
+        ec = fold_consts(fold(expand(ctx.repo, sl, tw, stop=_stop)))
         v, tt, why = compare_twins(er, ec)
         where = f"cubepart.py::_Slice.{name} <-> {tw}"
         n += 1
